@@ -133,7 +133,7 @@ func runShared(c SCase) *ev.Failure {
 			continue
 		}
 		if !mc.WaitParked(longWait) {
-			return ev.Failf("harness-park", "step %d: the reader of connection %d did not park again", i, st.Conn)
+			return ev.Failf("shared:connection-stalled", "step %d (%s on connection %d, the %d-th step of the history): the connection's reader did not return to the transport within %v - the message is still being processed, later messages of this peer cannot be dispatched; steps so far %v", i, st.Sym, st.Conn, i+1, longWait, c.Steps[:i+1])
 		}
 	}
 	mu.Lock()
@@ -221,4 +221,23 @@ func TestC10SharedStateMachine(t *testing.T) { propShared.Check(t, 1500, 60000) 
 
 func TestC10SharedCanonical(t *testing.T) {
 	propShared.One(t, SCase{Conns: 2, CatchAll: true, Steps: []SStep{{0, "CER"}, {0, "RAR"}, {0, "CCR"}, {0, "STR"}, {1, "RAR"}, {1, "CCR"}, {1, "STR"}, {1, "CER"}, {1, "RAR"}}})
+}
+
+// Many peers, one after the other, on ONE state machine whose application never reads
+// HandshakeNotify() (it is optional): every peer's handshake completes and its request reaches
+// the handler, however many came before.
+func TestC10ManyPeers(t *testing.T) {
+	propShared.Enumerate(t, false, func(yield func(SCase) bool) {
+		for _, n := range []int{ev.Pick(40, 300), 20} {
+			for _, catchAll := range []bool{false, true} {
+				c := SCase{Conns: n, CatchAll: catchAll}
+				for i := 0; i < n; i++ {
+					c.Steps = append(c.Steps, SStep{Conn: i, Sym: "CER"}, SStep{Conn: i, Sym: []string{"RAR", "CCR", "STR"}[i%3]})
+				}
+				if !yield(c) {
+					return
+				}
+			}
+		}
+	})
 }
